@@ -360,6 +360,34 @@ theorem relay_late_subscription_loses_prefix :
     (s.chan 0).start = 2 ∧ (s.chan 0).recvd = [⟨7, 2⟩] ∧ (s.chan 0).buf = [] ∧ s.pc = .idle := by
   refine ⟨rfl, rfl, rfl, rfl, rfl, rfl, rfl⟩
 
+/-! ### two relays on one inner tracer (D43)
+
+A relay is a subscriber like any other: TWO relays subscribed to the same inner tracer before its first `Send` each hold the
+whole inner stream, so everything is forwarded to the enclosing tracer twice. That is what two tokens inside one
+sub-process node did before activations took turns (`sp.activation`, 69bc080): the second token's relay repeated the
+running activation's traces on the instance's tracer. -/
+
+/-- both subscribers hold the whole stream (twice `relay_lossless_if_subscribed_first`) -/
+theorem two_relays_each_hold_everything (cfg : Cfg) (pre post : List Act) (c1 c2 : Nat)
+    (hpre : ∀ a ∈ pre, a.isSend = false) (s : St) (hs : s = run cfg init (pre ++ post)) (hm : s.misuse = false)
+    (h1 : ((run cfg init pre).chan c1).stat ≠ .absent ∧ ((run cfg init pre).chan c1).stat ≠ .subWait)
+    (h2 : ((run cfg init pre).chan c2).stat ≠ .absent ∧ ((run cfg init pre).chan c2).stat ≠ .subWait) :
+    (s.chan c1).recvd ++ (s.chan c1).drained ++ (s.chan c1).buf = s.log.take (s.upto c1) ∧
+    (s.chan c2).recvd ++ (s.chan c2).drained ++ (s.chan c2).buf = s.log.take (s.upto c2) :=
+  ⟨(relay_lossless_if_subscribed_first cfg pre post c1 hpre s hs hm h1).2,
+   (relay_lossless_if_subscribed_first cfg pre post c2 hpre s hs hm h2).2⟩
+
+/-- two relays subscribe, the inner flow sends one trace, both receive it -/
+def twoRelaySched : List Act :=
+  [ .callSub 10, .recvSub 0, .subReturn 0, .callSub 10, .recvSub 1, .subReturn 1,
+    .callSend 7, .recvTrace 0, .push, .push, .consume 0, .consume 1 ]
+
+/-- … the witness: one trace sent, two copies forwarded -/
+theorem two_relays_forward_twice :
+    let s := run {} init twoRelaySched
+    s.misuse = false ∧ s.log = [⟨7, 0⟩] ∧ (s.chan 0).recvd ++ (s.chan 1).recvd = [⟨7, 0⟩, ⟨7, 0⟩] ∧ s.pc = .idle := by
+  refine ⟨rfl, rfl, rfl, rfl⟩
+
 /-- what is claimed at a given value of the fact "subProcess.run subscribes to the inner tracer before it starts the
 inner flows" -/
 def RelayClaim (subscribesFirst : Bool) : Prop :=
